@@ -150,6 +150,23 @@ CHECKS = {
         technique='symbolic execution of the real Python code (CrossHair/z3), per-condition solver verdict',
         engine='E1',
     ),
+    'C01': dict(
+        category='translation_validation',
+        text=('For every formula of an enumerated skeleton family (all chains of 1-2 binary operators from the 11, decorated per operand with unary '
+              'signs, postfix %, parentheses, a literal; parenthesised sub-chains; a seeded sample of 3-operator chains in quick, all in thorough) '
+              'the expression emitted by the real Lexer/AstBuilder/translators is compared with the tree of an independent Excel-precedence parser as z3 '
+              'terms over uninterpreted operators: EUF-unsat of "emitted != reference" means equal values for every operand and every '
+              'interpretation of the operators. EUF-different shapes go to a value tier (z3 over reals; models replayed on the real generated '
+              'class). Blank-as-zero and override-vs-constant clauses: CrossHair on emitted classes. Numeric literals: z3 Float64 through the '
+              'real LiteralToken constructor with symbolic digit groups (builtins shimmed in its module globals).'),
+        design_ref='DESIGN.md section 6 / C01',
+        note=('operands are cell references (ints in the value tier, -9..9); _normalize_float_number = identity at term level; text concatenation '
+              'associativity built into the normalisation; four grammar-level known findings (unary sign, lower-precedence operator after a higher one, '
+              '% after brackets, % operand not last) cover 69% of the family on the pinned tree and are partitioned out by region - shapes outside '
+              'the regions must stay identical; literals: integer part < 2^16/2^20, <= 3/6 fraction digits.'),
+        technique='term equivalence of emitted vs reference expression (z3 EUF + real arithmetic), IEEE-754 bit-precise check of literals (z3 FP), CrossHair for blank/override clauses',
+        engine='E3+E2+E1',
+    ),
 }
 
 NOT_YET = {}   # filled below for every property without a check
